@@ -179,17 +179,20 @@ package updog
 //@ trusted func getValueIndex(k, v) (result)
 //@   ensures result == idxOf(k, v)
 
-//@ func [C03] (*ExprEqual).cacheKey(e) inherits Expression.cacheKey
-//@ func [C03] (*ExprNot).cacheKey(e) inherits Expression.cacheKey
-//@   bv
-//@ func [C03] (*ExprAnd).cacheKey(e) inherits Expression.cacheKey
-//@   bv
+//@ func [C03,C14] combineCacheKeys(mask, keys) (result)
 //@   loop 1
-//@     invariant wf(e) && 0 <= $i && $i <= len(e.Exprs)
-//@ func [C03] (*ExprOr).cacheKey(e) inherits Expression.cacheKey
-//@   bv
+//@     invariant 0 <= $i && len(buf) == 8 * (len(keys) + 1) && arr(buf) != nil && !(arr(buf) in old($alloc))
+
+//@ func [C03,C14] (*ExprEqual).cacheKey(e) inherits Expression.cacheKey
+//@ func [C03,C14] (*ExprNot).cacheKey(e) inherits Expression.cacheKey
+//@ func [C03,C14] (*ExprAnd).cacheKey(e) inherits Expression.cacheKey
 //@   loop 1
-//@     invariant wf(e) && 0 <= $i && $i <= len(e.Exprs)
+//@     invariant wf(e) && 0 <= $i && $i <= len(e.Exprs) && len(keys) == $i
+//@     invariant arr(keys) != nil && !(arr(keys) in old($alloc))
+//@ func [C03,C14] (*ExprOr).cacheKey(e) inherits Expression.cacheKey
+//@   loop 1
+//@     invariant wf(e) && 0 <= $i && $i <= len(e.Exprs) && len(keys) == $i
+//@     invariant arr(keys) != nil && !(arr(keys) in old($alloc))
 
 // ---- group-by (C02): resolved group-by columns
 //@ pred ValuesOK(vs []groupByValue, col *column) :=
